@@ -243,6 +243,45 @@ fn main() {
             let _ = out.flush();
             continue;
         }
+        if entry.starts_with("race_") {
+            // C13 confirmation: `cap` threads make their FIRST parse call of this process at the same moment; all results must agree
+            let e2 = entry[5..].to_string();
+            let data = std::sync::Arc::new(unhex(if p.len() > 3 { p[3] } else { "" }));
+            let nthreads = cap.max(2);
+            let barrier = std::sync::Arc::new(std::sync::Barrier::new(nthreads));
+            let mut hs = Vec::new();
+            for _ in 0..nthreads {
+                let (d, b, e3) = (data.clone(), barrier.clone(), e2.clone());
+                hs.push(std::thread::spawn(move || {
+                    b.wait();
+                    let buf: &[u8] = &d;
+                    match e3.as_str() {
+                        "headers" => run_headers(MAXCAP, buf),
+                        "chunk" => run_chunk(buf),
+                        e if e.starts_with("req") => run_req(e, flags, 4, buf),
+                        e => run_resp(e, flags, 4, buf),
+                    }
+                }));
+            }
+            let mut outs: Vec<String> = Vec::new(); let mut panics = 0;
+            for h in hs {
+                match h.join() {
+                    Ok(s) => {
+                        // the allocation counter is process-global: other threads' activity shows up in it -> not part of the comparison
+                        let t = match (s.find("\"allocs\":"), s.find(",\"method\"").or(s.find(",\"version\"")).or(s.find(",\"hlen\"")).or(s.find(",\"size\""))) {
+                            (Some(a), Some(b)) if b > a => format!("{}{}", &s[..a], &s[b + 1..]),
+                            _ => s,
+                        };
+                        outs.push(t)
+                    }
+                    Err(_) => panics += 1,
+                }
+            }
+            outs.sort(); outs.dedup();
+            let _ = writeln!(out, "{{\"impl\":{{\"status\":\"R\",\"n\":0,\"panics\":{},\"distinct\":{}}},\"ref\":{{}}}}", panics, outs.len());
+            let _ = out.flush();
+            continue;
+        }
         if entry.starts_with("time_") {
             // C20 confirmation: wall time of `cap` repetitions of the parse (median of 5 batches), in nanoseconds
             let e2 = entry[5..].to_string();
